@@ -25,7 +25,8 @@ def query_sets(rng, grid):
     a, b = grid[0], grid[-1]
     m = len(grid)
     off = a + (b - a) * np.round(rng.uniform(0.05, 0.95, size=3) * 64) / 64
-    Q = np.unique(np.concatenate([grid, off]))
+    near = off + (b - a) * 2.0 ** -12          # distinct locations very close to other requested locations
+    Q = np.unique(np.concatenate([grid, off, near]))
     subs = [
         ("sub-range", Q[(Q >= a + 0.2 * (b - a)) & (Q <= a + 0.8 * (b - a))]),
         ("thinned", Q[::3]),
@@ -34,9 +35,10 @@ def query_sets(rng, grid):
         ("left-part", Q[: len(Q) // 2 + 1]),          # excludes the right end
         ("interior", Q[1:-1]),
         ("off-grid-only", np.sort(off)),
+        ("near-neighbours-only", np.sort(near)),        # without the locations they are close to
         ("permuted", rng.permutation(Q)),
     ]
-    new = np.setdiff1d(off, grid)
+    new = np.setdiff1d(np.concatenate([off, near]), grid)
     if 0 < len(new) <= m - 2:
         # as many locations as the sampling grid, but not the sampling grid (sorted, so usable by every entry point)
         drop = grid[1:-1][:: max(1, (m - 2) // len(new))][: len(new)]
